@@ -28,7 +28,7 @@ KINDS = ["EMG", "FPCal", "FPData", "Data3D", "Force", "Events", "Optical"]
 KINDS_OF = {"C02": ["EMG", "FPData", "Data3D", "Events"], "C15": ["EMG", "EMG@c", "FPCal", "FPData"],
             # "X@e": the small models in which the content of items is edited in place
             "C20x": ["EMG@e", "Data3D@e", "Force@e", "FPData@e", "Events@e"], "C16": ["Data3D", "Force", "EMG"], "C18": ["Data3D", "Force", "EMG", "Events"],
-            "C20": KINDS + ["EMG@e", "Data3D@e", "Force@e", "FPData@e", "Events@e", "Optical@e", "FPCal@e"]}
+            "C20": KINDS + ["EMG@e", "Data3D@e", "Force@e", "FPData@e", "Events@e", "Optical@e", "FPCal@e", "Unused"]}
 CHAN_KINDS = {"EMG", "FPCal", "FPData"}
 NI = 2          # instances the model drives
 SLOTS = 3       # slot 3: the "twin" of a decode (the same bytes decoded a second time)
@@ -38,6 +38,10 @@ GEOM = (np.ones(3, "<f4"), np.eye(3, dtype="<f4"), np.zeros(3, "<f4"))
 def fresh_str(text):
     """an equal string that is a different object (keys are compared by value, not identity)"""
     return text.encode("utf-8").decode("utf-8") if len(text) > 1 else text
+
+
+from datetime import datetime as _dt  # noqa: E402
+UNUSED_DATE0 = _dt(2001, 1, 1)
 
 
 class Harness:
@@ -180,11 +184,18 @@ class Harness:
             return TemporalEventsData()
         if k == "Optical":
             return OpticalSetupBlock(channels=items) if items else OpticalSetupBlock()
+        if k == "Unused":
+            from basictdf.tdfBlock import UnusedBlock
+            u = UnusedBlock()
+            u.creation_date = UNUSED_DATE0
+            return u
         raise ValueError(k)
 
     # ------------------------------------------------------------ projection
     def items_of(self, b):
         k = self.kind
+        if k == "Unused":
+            return []
         if k == "FPCal":
             return [b[i] for i in range(len(b))]
         if k == "FPData":
@@ -261,7 +272,10 @@ class Harness:
             return False
 
     def aux_of(self, b):
-        """number of marker links a 3D block encodes (format byTrack: i32 at offset 80)"""
+        """number of marker links a 3D block encodes (format byTrack: i32 at offset 80); for the
+        placeholder of an unused slot: its creation date, in days after the date it was given"""
+        if self.kind == "Unused":
+            return (b.creation_date - UNUSED_DATE0).days
         if self.kind != "Data3D":
             return 0
         if self.nf == 0 and len(b):
@@ -273,6 +287,23 @@ class Harness:
     def decode_twice(self, b):
         """the same bytes decoded two times; alternately straight from the bytes and
         through a TDF file read twice inside one context"""
+        if self.kind == "Unused":
+            # unused slots of a new file, read back (the dates of a block are not in its bytes: the
+            # harness gives the decoded placeholders the date of their source, separately)
+            from basictdf import Tdf
+            self.tagc += 1
+            path = os.path.join(self.work or common.scratch(), f"unused{self.tagc}.tdf")
+            try:
+                Tdf.new(path)
+                with Tdf(path) as f:
+                    first, second = f.get_block(self.tagc % 14), (f.blocks[(self.tagc + 3) % 14] if self.tagc % 2 else f[(self.tagc + 5) % 14])
+                first.creation_date = b.creation_date
+                if second is not first:
+                    second.creation_date = b.creation_date
+                return first, second
+            finally:
+                if os.path.exists(path):
+                    os.unlink(path)
         raw = self.encode_bytes(b)
         self.tagc += 1
         if self.tagc % 2 == 0 or self.work is None:
@@ -363,10 +394,15 @@ class Harness:
             else:
                 target = items[lab["pos"] - 1] if 0 < lab["pos"] <= len(items) else self.new_item(1)
                 o["key"] = self.ident(target)
-                if self.kind == "Optical":
-                    fn = lambda: b.channels.remove(target)  # noqa: E731
-                elif self.kind == "Events":
-                    fn = lambda: b.events.remove(target)  # noqa: E731
+                if self.kind in ("Optical", "Events"):
+                    # (by identity: list.remove would take the first EQUAL element, and two events
+                    # without values are equal)
+                    def fn():
+                        lst = b.channels if self.kind == "Optical" else b.events
+                        k = next((n for n, x in enumerate(lst) if x is target), None)
+                        if k is None:
+                            raise ValueError("not in list")
+                        del lst[k]
                 else:
                     fn = lambda: b.remove_platform(target)  # noqa: E731
         elif op == "assign":
@@ -503,6 +539,10 @@ class Harness:
 
             def fn():
                 b.tracks = src.tracks
+        elif op == "aux" and self.kind == "Unused":
+            def fn():
+                from datetime import timedelta
+                b.creation_date = b.creation_date + timedelta(days=1)
         elif op == "aux":
             def fn():
                 pair = (self.tagc % 5, 7)
@@ -721,6 +761,40 @@ def directed_assign_from(init, adj, rng, n=6):
     return out
 
 
+def directed_lookup(init, adj, rng, n=6):
+    """model paths: a block, its decoded copy (equal content, other objects), then lookups by label in
+    both, in both orders - a lookup must return the item of the block it was made on"""
+    out = []
+    for _ in range(n * 6):
+        if len(out) >= n:
+            break
+        cur, labs, stage = init, [], 0
+        order = rng.choice([(1, 2, 1), (2, 1, 2), (1, 2, 2)])
+        for _step in range(12):
+            outs = adj.get(cur, [])
+            if stage == 0:
+                cand = [(d, l) for d, l in outs if l in ("Begin", "Construct(1,<<>>)")]
+            elif stage == 1:
+                cand = [(d, l) for d, l in outs if l.startswith("Add(1,1,TRUE")]
+            elif stage == 2:
+                cand = [(d, l) for d, l in outs if l.replace(" ", "") == "Decode(1,2)"]
+            else:
+                who = order[stage - 3]
+                cand = [(d, l) for d, l in outs if l.replace(" ", "") == f'Lookup({who},"label",1)']
+            if not cand:
+                break
+            d, l = rng.choice(cand)
+            labs.append(l)
+            cur = d
+            if l != "Begin":
+                stage += 1
+            if stage == 6:
+                break
+        if stage == 6:
+            out.append(labs)
+    return out
+
+
 def run_tour(kind, labs, seed, share_ctor=False):
     model = kind
     kind = kind.split("@")[0]
@@ -785,6 +859,9 @@ def select_for(prop):
             return lab.startswith(("Lookup", "Add", "Remove", "Construct", "Decode"))
         if prop == "C16":
             return lab.startswith(("Add", "Assign", "Construct", "Decode"))
+        if prop == "C20":
+            # lookups by label too: what a lookup returns must be an item of THIS block
+            return not lab.startswith("Lookup") or '"label"' in lab
         return not lab.startswith("Lookup")
     return sel
 
@@ -839,6 +916,10 @@ def check(prop, tier, seed, replay=None):
             k = 0
             for g in gens:
                 for labs in g:
+                    k += 1
+                    trs.append(run_tour(kind, labs, seed * 7 + k))
+            if prop in ("C20", "C18") and kind_of(kind) in ("EMG", "Data3D", "Force", "Events") and "@" not in kind:
+                for labs in directed_lookup(init, adj, rng):
                     k += 1
                     trs.append(run_tour(kind, labs, seed * 7 + k))
             if prop in ("C20", "C16") and kind in ("Data3D", "Force"):
